@@ -27,13 +27,12 @@ namespace Givaro {
         init(Fact[count], 0, lc);
         // write(cout << "P:", P) << endl;
         // _domain.write(cout << "lc(P):", lc) << endl;
-        assign(A, P);
-        diff(B, A);
-        // write(cout << "P':", B) << endl;
-        gcd(D, A, B);
-        // write(cout << "Gcd(P,P'):", D) << endl;
         div(A, P, lc);
         // write(cout << "A/lc:", A) << endl;
+        diff(B, A);
+        // write(cout << "(P/lc)':", B) << endl;
+        gcd(D, A, B);
+        // write(cout << "Gcd(P,P'):", D) << endl;
         leadcoef(lc, D);
         // _domain.write(cout << "lc(Gcd):", lc) << endl;
         div(C, D, lc);
@@ -59,7 +58,7 @@ namespace Givaro {
                 div(Y, Z, Fact[count]);
                 diff(Z, W);
                 sub(Z, Y, Z);
-                if (++count > Nfact) return Nfact;
+                if (++count >= Nfact) return Nfact;
             }
         }
         assign(Fact[count], W);
